@@ -129,6 +129,8 @@ def generate(rng, tier):
                   "verb": rng.choice(VERBS), "path": rng.choice(["/a", "/b/c", "/", "/q"]),
                   "own_id": (f"caller-{k}" if rng.random() < 0.2 else None),
                   "net": gen_net(rng, fault_rate, kinds)}
+            if op["own_id"] is not None and rng.random() < 0.08:
+                op["own_id"] = ""            # an id that is there but empty (e.g. forwarded as received)
             if op["own_id"] is not None and rng.random() < 0.2:
                 # the id is not a plain str: header values may be bytes (the package's own adapters send such)
                 op["own_id_form"] = rng.choice(["bytes", "strsub"])
